@@ -143,6 +143,17 @@ CHECKS.update({
     ),
 })
 
+CHECKS.update({
+    'C15': dict(
+        script='checks/c15.py', category='model_checking', design='DESIGN.md §4 C15',
+        text=('printTo of LocalDateTime / TimeOffset / OffsetDateTime / ZonedDateTime into an in-memory Print and the '
+              'for*String parsers on the real IR: all field values and offsets (+-99:59) are solver variables, the printed bytes '
+              'are terms of them, byte-level ISO-8601 predicates and parse(print(x)) == x are SMT obligations per path; every '
+              'string length below the minimum with arbitrary bytes parses to an error value; zone names come from the table.'),
+        technique='symbolic execution of clang LLVM IR (llsym) + SMT over printed bytes',
+    ),
+})
+
 NOT_APPLICABLE = {
     'C19': ('the generators are sampling loops around pytz/dateutil tzinfo objects backed by binary tz files and '
             'C-implemented datetime; neither CrossHair nor our symbolic executor can make those symbolic, and a '
